@@ -89,9 +89,14 @@ theorem parseNumber_natDigits (pos : Bool) (n : Nat) {rest : List Char} (h : Fol
     · simp [hc]
   rw [e']
   unfold parseNumber
-  simp only [hd, hz', Bool.not_true, Bool.false_eq_true, if_false]
+  simp only [hd, Bool.not_true, Bool.false_eq_true, if_false]
   rw [← e', hscan]
-  simp [hz']
+  simp only [Bool.and_eq_true, decide_eq_true_eq]
+  rw [if_neg]
+  intro ⟨hc, hm⟩
+  simp only [hc, decide_true, Bool.true_and] at hz'
+  rw [hm] at hz'
+  cases hz'
 
 theorem isDigit_not_ws {c : Char} (h : isDigit c = true) : isWs c = false ∧ c ≠ '-' := by
   refine ⟨?_, ?_⟩
@@ -135,9 +140,13 @@ theorem parseStrF_escChar (c : Char) (f : Nat) (acc : Str) (tail : List Char) :
     have h0 : hexVal '0' = some 0 := by decide
     have hv : ((0 * 16 + 0) * 16 + c.toNat / 16) * 16 + c.toNat % 16 = c.toNat := by omega
     simp [parseStrF, parseEscape, parseUnicode, decodeHex, hexVal_hexDigit _ hd1,
-      hexVal_hexDigit _ hd2, h0, hv]
-    trace_state
-    done
+      hexVal_hexDigit _ hd2, h0]
+    have hv' : c.toNat / 16 * 16 + c.toNat % 16 = c.toNat := by omega
+    rw [hv']
+    have g1 : ¬ (56320 ≤ c.toNat ∧ c.toNat ≤ 57343) := by omega
+    have g2 : c.toNat < 55296 ∨ 56319 < c.toNat := by omega
+    rw [if_neg g1, if_pos g2]
+    simp
   · next h1 h2 _ _ _ _ _ h =>
     simp [parseStrF, h1, h2, h]
 
@@ -165,5 +174,207 @@ theorem parseStr_prStr (s : Str) (rest : List Char) :
   unfold parseStr
   rw [parseStrF_escape s _ [] rest (by simp; omega)]
   simp
+
+/-! ### values -/
+
+mutual
+/-- `Good d t`: `t` has no float, its integers are in the `i64` range, and it nests fewer than `d`
+    levels of arrays/objects (`d` = serde_json's `remaining_depth`). -/
+def Good : Nat → T → Prop
+  | _, .null => True
+  | _, .bool _ => True
+  | _, .int i => -(2 ^ 63 : Int) ≤ i ∧ i < 2 ^ 63
+  | _, .float _ => False
+  | _, .str _ => True
+  | d, .arr xs => 1 < d ∧ GoodL (d - 1) xs
+  | d, .obj es => 1 < d ∧ GoodE (d - 1) es
+def GoodL : Nat → List T → Prop
+  | _, [] => True
+  | d, x :: xs => Good d x ∧ GoodL d xs
+def GoodE : Nat → List (Str × T) → Prop
+  | _, [] => True
+  | d, (_, x) :: es => Good d x ∧ GoodE d es
+end
+
+mutual
+def cost : T → Nat
+  | .arr xs => 1 + costL xs
+  | .obj es => 1 + costE es
+  | _ => 1
+def costL : List T → Nat
+  | [] => 1
+  | x :: xs => 1 + cost x + costL xs
+def costE : List (Str × T) → Nat
+  | [] => 1
+  | (_, x) :: es => 1 + cost x + costE es
+end
+
+/-- every printed value starts with a character that is not whitespace and none of `] , }` -/
+def Starts (cs : List Char) : Prop :=
+  ∃ c tl, cs = c :: tl ∧ isWs c = false ∧ c ≠ ']' ∧ c ≠ ',' ∧ c ≠ '}'
+
+theorem prInt_starts (i : Int) : Starts (prInt i) := by
+  unfold prInt
+  split
+  · exact ⟨'-', _, rfl, by decide, by decide, by decide, by decide⟩
+  · obtain ⟨c, tl, e, hd, _⟩ := natDigits_head i.natAbs
+    refine ⟨c, tl, e, (isDigit_not_ws hd).1, ?_, ?_, ?_⟩ <;> (intro h'; subst h'; revert hd; decide)
+
+theorem pr_starts {d : Nat} : ∀ {t : T}, Good d t → Starts (pr t)
+  | .null, _ => ⟨'n', _, rfl, by decide, by decide, by decide, by decide⟩
+  | .bool true, _ => ⟨'t', _, rfl, by decide, by decide, by decide, by decide⟩
+  | .bool false, _ => ⟨'f', _, rfl, by decide, by decide, by decide, by decide⟩
+  | .int i, _ => by rw [pr]; exact prInt_starts i
+  | .float _, h => by simp [Good] at h
+  | .str _, _ => ⟨'"', _, rfl, by decide, by decide, by decide, by decide⟩
+  | .arr _, _ => ⟨'[', _, by rw [pr], by decide, by decide, by decide, by decide⟩
+  | .obj _, _ => ⟨'{', _, by rw [pr], by decide, by decide, by decide, by decide⟩
+
+theorem skipWs_starts {cs : List Char} (h : Starts cs) (rest : List Char) :
+    skipWs (cs ++ rest) = cs ++ rest := by
+  obtain ⟨c, tl, e, hw, _⟩ := h
+  subst e
+  simp [skipWs, hw]
+
+theorem Fol_prElems (xs : List T) (rest : List Char) : Fol (prElems false xs ++ rest) := by
+  intro c r h
+  cases xs with
+  | nil => simp [prElems] at h; obtain ⟨h1, _⟩ := h; subst h1; decide
+  | cons x xs => simp [prElems] at h; obtain ⟨h1, _⟩ := h; subst h1; decide
+
+theorem Fol_prMembers (es : List (Str × T)) (rest : List Char) : Fol (prMembers false es ++ rest) := by
+  intro c r h
+  cases es with
+  | nil => simp [prMembers] at h; obtain ⟨h1, _⟩ := h; subst h1; decide
+  | cons e es =>
+    obtain ⟨k, x⟩ := e
+    simp [prMembers] at h; obtain ⟨h1, _⟩ := h; subst h1; decide
+
+theorem parseV_int (f d : Nat) (i : Int) (hi : -(2 ^ 63 : Int) ≤ i ∧ i < 2 ^ 63) {rest : List Char}
+    (h : Fol rest) : parseV (f + 1) d (prInt i ++ rest) = .ok (.int i, rest) := by
+  unfold prInt
+  split
+  · next hneg =>
+    have hN : i.natAbs ≤ 2 ^ 63 := by omega
+    have hN0 : i.natAbs ≠ 0 := by omega
+    have hu : i.natAbs ≤ u64Max := by unfold u64Max; omega
+    have hv : -(i.natAbs : Int) = i := by omega
+    simp [parseV, skipWs, isWs, parseNumber_natDigits false _ h, afterInt_int h, hN, hN0, hu, hv]
+  · next hpos =>
+    obtain ⟨c, tl, e, hd, _⟩ := natDigits_head i.natAbs
+    have hN : i.natAbs < 2 ^ 63 := by omega
+    have hu : i.natAbs ≤ u64Max := by unfold u64Max; omega
+    have hv : (i.natAbs : Int) = i := by omega
+    have hs : skipWs (natDigits i.natAbs ++ rest) = c :: (tl ++ rest) := by
+      rw [e]; simp [skipWs, (isDigit_not_ws hd).1]
+    have e' : c :: (tl ++ rest) = natDigits i.natAbs ++ rest := by rw [e]; rfl
+    unfold parseV
+    simp only [hs, (isDigit_not_ws hd).2, hd, if_true, if_false]
+    rw [e', parseNumber_natDigits true _ h, afterInt_int h]
+    simp [hN, hu, hv]
+
+mutual
+theorem parseV_pr : ∀ (t : T) (f d : Nat) (rest : List Char), Good d t → cost t ≤ f → Fol rest →
+    parseV f d (pr t ++ rest) = .ok (t, rest)
+  | .null, f + 1, d, rest, _, _, _ => by simp [parseV, pr, skipWs, isWs, isDigit, parseIdent]
+  | .bool true, f + 1, d, rest, _, _, _ => by simp [parseV, pr, skipWs, isWs, isDigit, parseIdent]
+  | .bool false, f + 1, d, rest, _, _, _ => by simp [parseV, pr, skipWs, isWs, isDigit, parseIdent]
+  | .int i, f + 1, d, rest, hg, _, hfol => by
+    rw [pr]; exact parseV_int f d i (by simpa [Good] using hg) hfol
+  | .float _, _, _, _, hg, _, _ => by simp [Good] at hg
+  | .str s, f + 1, d, rest, _, _, _ => by
+    have : prStr s ++ rest = '"' :: (escape s ++ '"' :: rest) := by simp [prStr]
+    rw [pr, this]
+    simp [parseV, skipWs, isWs, isDigit, parseStr_prStr]
+  | .arr xs, f + 1, d, rest, hg, hc, _ => by
+    have hg' : 1 < d ∧ GoodL (d - 1) xs := by simpa [Good] using hg
+    have hc' : costL xs ≤ f := by simp [cost] at hc; omega
+    have hd : ¬ d ≤ 1 := by omega
+    have ih := parseElems_pr xs f (d - 1) true rest hg'.2 hc'
+    have : pr (.arr xs) ++ rest = '[' :: (prElems true xs ++ rest) := by rw [pr]; rfl
+    rw [this]
+    simp [parseV, skipWs, isWs, isDigit, hd, ih]
+  | .obj es, f + 1, d, rest, hg, hc, _ => by
+    have hg' : 1 < d ∧ GoodE (d - 1) es := by simpa [Good] using hg
+    have hc' : costE es ≤ f := by simp [cost] at hc; omega
+    have hd : ¬ d ≤ 1 := by omega
+    have ih := parseMembers_pr es f (d - 1) true rest hg'.2 hc'
+    have : pr (.obj es) ++ rest = '{' :: (prMembers true es ++ rest) := by rw [pr]; rfl
+    rw [this]
+    simp [parseV, skipWs, isWs, isDigit, hd, ih]
+  | .null, 0, _, _, _, hc, _ => by simp [cost] at hc
+  | .bool _, 0, _, _, _, hc, _ => by simp [cost] at hc
+  | .int _, 0, _, _, _, hc, _ => by simp [cost] at hc
+  | .str _, 0, _, _, _, hc, _ => by simp [cost] at hc
+  | .arr _, 0, _, _, _, hc, _ => by simp [cost] at hc
+  | .obj _, 0, _, _, _, hc, _ => by simp [cost] at hc
+theorem parseElems_pr : ∀ (xs : List T) (f d : Nat) (first : Bool) (rest : List Char),
+    GoodL d xs → costL xs ≤ f →
+    parseElems f d first (prElems first xs ++ rest) = .ok (xs, rest)
+  | [], f + 1, d, first, rest, _, _ => by simp [parseElems, prElems, skipWs, isWs]
+  | [], 0, _, _, _, _, hc => by simp [costL] at hc
+  | x :: xs, 0, _, _, _, _, hc => by simp [costL] at hc
+  | x :: xs, f + 1, d, first, rest, hg, hc => by
+    have hg' : Good d x ∧ GoodL d xs := by simpa [GoodL] using hg
+    have hc1 : cost x ≤ f := by simp [costL] at hc; omega
+    have hc2 : costL xs ≤ f := by simp [costL] at hc; omega
+    have ihx := parseV_pr x f d (prElems false xs ++ rest) hg'.1 hc1 (Fol_prElems xs rest)
+    have ihxs := parseElems_pr xs f d false rest hg'.2 hc2
+    have hst := pr_starts hg'.1
+    have hsk := skipWs_starts hst (prElems false xs ++ rest)
+    obtain ⟨c, tl, e, hw, h1, h2, h3⟩ := hst
+    cases first with
+    | true =>
+      have : prElems true (x :: xs) ++ rest = pr x ++ (prElems false xs ++ rest) := by
+        simp [prElems]
+      rw [this]
+      unfold parseElems
+      rw [hsk]
+      rw [e] at ihx ⊢
+      simp only [List.cons_append, h1, if_false, if_true]
+      simp only [List.cons_append] at ihx
+      rw [ihx]
+      simp only [ihxs]
+    | false =>
+      have : prElems false (x :: xs) ++ rest = ',' :: (pr x ++ (prElems false xs ++ rest)) := by
+        simp [prElems]
+      rw [this]
+      unfold parseElems
+      have hs2 : skipWs (',' :: (pr x ++ (prElems false xs ++ rest)))
+          = ',' :: (pr x ++ (prElems false xs ++ rest)) := by simp [skipWs, isWs]
+      rw [hs2]
+      simp only [hsk]
+      rw [e] at ihx ⊢
+      simp only [List.cons_append] at ihx ⊢
+      simp [h1, ihx, ihxs]
+theorem parseMembers_pr : ∀ (es : List (Str × T)) (f d : Nat) (first : Bool) (rest : List Char),
+    GoodE d es → costE es ≤ f →
+    parseMembers f d first (prMembers first es ++ rest) = .ok (es, rest)
+  | [], f + 1, d, first, rest, _, _ => by simp [parseMembers, prMembers, skipWs, isWs]
+  | [], 0, _, _, _, _, hc => by simp [costE] at hc
+  | (k, x) :: es, 0, _, _, _, _, hc => by simp [costE] at hc
+  | (k, x) :: es, f + 1, d, first, rest, hg, hc => by
+    have hg' : Good d x ∧ GoodE d es := by simpa [GoodE] using hg
+    have hc1 : cost x ≤ f := by simp [costE] at hc; omega
+    have hc2 : costE es ≤ f := by simp [costE] at hc; omega
+    have ihx := parseV_pr x f d (prMembers false es ++ rest) hg'.1 hc1 (Fol_prMembers es rest)
+    have ihes := parseMembers_pr es f d false rest hg'.2 hc2
+    have hkey : ∀ tail, parseStr (escape k ++ '"' :: tail) = .ok (k, tail) := parseStr_prStr k
+    cases first with
+    | true =>
+      have : prMembers true ((k, x) :: es) ++ rest
+          = '"' :: (escape k ++ '"' :: ':' :: (pr x ++ (prMembers false es ++ rest))) := by
+        simp [prMembers, prStr]
+      rw [this]
+      unfold parseMembers
+      simp [skipWs, isWs, hkey, ihx, ihes]
+    | false =>
+      have : prMembers false ((k, x) :: es) ++ rest
+          = ',' :: '"' :: (escape k ++ '"' :: ':' :: (pr x ++ (prMembers false es ++ rest))) := by
+        simp [prMembers, prStr]
+      rw [this]
+      unfold parseMembers
+      simp [skipWs, isWs, hkey, ihx, ihes]
+end
 
 end GluonModel.StdJsonText
